@@ -221,7 +221,7 @@ func (c *Cluster) afterStep(s *Step) {
 	c.checkForksInRecord()
 	full := c.cfg.FullReread || c.stepNo%maxInt(c.cfg.CheckEvery, 1) == 0
 	for _, n := range c.nodes {
-		if n.started && !n.byz {
+		if n.started && !n.byz && !n.isObserver {
 			c.checkC02(n, full)
 		}
 	}
@@ -327,7 +327,7 @@ func (c *Cluster) every(prop string, def int) bool {
 func (c *Cluster) runOracles(final bool) {
 	c.recordEmittedSignatures()
 	for _, n := range c.nodes {
-		if !n.started || n.byz || !n.running() {
+		if !n.started || n.byz || !n.running() || n.isObserver {
 			continue
 		}
 		c.checkC05Conservation(n)
